@@ -1,5 +1,5 @@
 //! C12 / C13 / C14: formatter properties. `--only c12|c13|c14` selects whose oracle reports.
-use crate::common::{Opts, Rng, Sink, n_threads, par_map};
+use crate::common::{Opts, Rng, Sink, n_threads, par_map_watchdog};
 use crate::corpus;
 use crate::fmt::{self, Formatted, Item};
 
@@ -90,7 +90,9 @@ pub fn run(opts: &Opts) -> i32 {
         }
     }
     let only2 = only.clone();
-    let results = par_map(inputs, n_threads(), || (), move |_, (tag, text)| {
+    let inputs_copy: Vec<(String, String)> = inputs.clone();
+    let (results, hung) = par_map_watchdog(inputs, n_threads(), std::time::Duration::from_secs(30), || (), move |_, (tag, text)| {
+        let (tag, text) = (tag.clone(), text.clone());
         let mut findings: Vec<(String, serde_json::Value)> = Vec::new();
         let mut stats: Vec<String> = Vec::new();
         let mut req: Option<(String, String)> = None;
@@ -135,7 +137,14 @@ pub fn run(opts: &Opts) -> i32 {
         let _ = &only2;
         (tag, findings, stats, req)
     });
-    for (tag, findings, stats, req) in results {
+    for i in &hung {
+        let (tag, text) = &inputs_copy[*i];
+        sink.count("hung");
+        if only == "c12" {
+            sink.violation("c12-formatter-does-not-terminate", serde_json::json!({"tag": tag, "limit_s": 30, "source": text}));
+        }
+    }
+    for (_, (tag, findings, stats, req)) in results {
         let stream = tag.split(':').next().unwrap_or("").to_string();
         for s in stats {
             sink.count(&format!("{stream}_{s}"));
@@ -156,5 +165,9 @@ pub fn run(opts: &Opts) -> i32 {
         }
     }
     sink.finish();
+    if !hung.is_empty() {
+        // abandoned worker threads are still spinning
+        std::process::exit(0);
+    }
     0
 }
